@@ -25,6 +25,9 @@ use vcore::Src;
 const ALPHA: &[&[u8]] = &[
     b"'", b"\"", b"\\", b"`", b"$", b" ", b"\t", b"\n", b"\r", b";", b"&", b"|", b"<", b">", b"(", b"*", b"?", b"~", b"#", b"%", b"+", b"=", b",", b"-", b"!", b"a", b"Z", b"0", b"\0", b"\x7f",
     "é".as_bytes(), "€".as_bytes(), "😀".as_bytes(), b"\xff", b"\x80", b"\xe2\x82",
+    // what the codecs themselves write: a string that spells an escape sequence must come back as it is,
+    // not decoded twice
+    b"&lt;", b"&amp;", b"&quot;", b"&#39;", b"&apos;", b"&gt;", b"%41", b"%25", b"\\n", b"\\t", b"\"\"", b"''",
 ];
 
 fn hexs(b: &[u8]) -> String {
@@ -402,7 +405,7 @@ fn run_jq_text(prog: &str, input: &MVal) -> Result<Vec<u8>, String> {
 
 pub fn run(mut rep: Report) -> ! {
     rep.set_rule(
-        "strings: exhaustively all strings of length <= 3 (quick: <= 2 plus a seed-dependent stride through length 3) over 36 pieces (shell/CSV/HTML/URI metacharacters, blanks, NUL, DEL, 2/3/4-byte characters, invalid bytes 0xff, 0x80, truncated 0xe2 0x82), as text and as byte strings; random longer strings with arbitrary bytes and code points; \
+        "strings: exhaustively all strings of length <= 3 (quick: <= 2 plus a seed-dependent stride through length 3) over 48 pieces (shell/CSV/HTML/URI metacharacters, the escape sequences that the codecs themselves write such as &lt; &amp; %41 %25 and doubled quotes, blanks, NUL, DEL, 2/3/4-byte characters, invalid bytes 0xff, 0x80, truncated 0xe2 0x82), as text and as byte strings; random longer strings with arbitrary bytes and code points; \
          (a) explode|implode, tobytes|tostring, @base64|@base64d, @uri|@urid, @html|@htmld, tojson|fromjson, @text, split|join are the identity, ascii case mapping touches ASCII letters only, length = explode|length = character count on valid UTF-8, byte lengths; (b) @base64 equals an independent encoder and @base64d rejects 8 kinds of malformed variants or decodes completely; \
          (c) regexes from a generator (literals incl. multi-byte, classes, quantifiers, alternation, named/unnamed/optional/repeated groups, anchors, empty-matching patterns) x flags x subjects with multi-byte characters: offsets/lengths of matches and captures count characters, split parts and matches reassemble the subject, test/scan/capture/gsub agree with match; \
          (d) consumers: dash evaluates @sh output of strings and arrays of scalars, alone and inside a format string (a canary command in the data must not run); Python csv.reader(strict) reads @csv rows, a TSV reader reads @tsv rows, json.loads reads @json, html.unescape reads @html (no raw < > & ' \"), urllib.parse reads @uri (unreserved or %XX only) and agrees with @urid on malformed escapes, base64.b64decode(validate) reads @base64; \
